@@ -289,11 +289,6 @@ theorem incompleteB_iff (g : Graph) (x : Proxy) : incompleteB g x = true ↔ Inc
 theorem partialB_iff (g : Graph) (x : Proxy) : partialB g x = true ↔ PartiallySatisfied g x := by
   unfold partialB PartiallySatisfied
   simp only [Bool.and_eq_true, Bool.not_eq_true', List.any_eq_true]
-  constructor
-  · rintro ⟨h1, pr, hpr, h2, a, ha, h3, h4⟩
-    exact ⟨h1, pr, hpr, h2, a, ha, h3, h4⟩
-  · rintro ⟨h1, pr, hpr, h2, a, ha, h3, h4⟩
-    exact ⟨h1, pr, hpr, h2, a, ha, h3, h4⟩
 
 theorem busyB_false_iff (x : Proxy) : busyB x = false ↔
     (x.status ≠ .preparing ∧ x.status ≠ .submitted ∧ x.status ≠ .running) ∧
@@ -395,5 +390,469 @@ theorem autoShutdown_sound (g : Graph) (s : State) (h : (checkAutoShutdown g s).
         rw [(isStalled_iff g s).mpr this] at hns; exact absurd hns (by simp)
       · simp only [if_neg hst]
         split <;> exact checkStalled_pool g s
+
+/-! ### the main loop: where `stop` and `stalled` can change -/
+
+/-- the state at the moment `workflow_shutdown` looks at the pool: after `compute_runahead` and `release_runahead_tasks` -/
+def decision (g : Graph) (s : State) : State := (releaseRunahead g (computeRunahead g s)).1
+
+theorem mainLoop_eq (g : Graph) (s : State) (h0 : s.stop = none) :
+    mainLoop g s =
+      if (checkAutoShutdown g (decision g s)).2 = true then
+        { (checkAutoShutdown g (decision g s)).1 with stop := some "AUTOMATIC" }
+      else finishLoop g (processQueue g (releaseAndSubmit (sweepQueue (checkAutoShutdown g (decision g s)).1))) := by
+  unfold mainLoop decision
+  rw [if_neg (by simp [h0])]
+
+theorem fr_decision (g : Graph) (s : State) : Fr s (decision g s) :=
+  (fr_computeRunahead g s false).trans (fr_releaseRunahead g _)
+
+theorem isStalled_congr (g : Graph) {s s' : State} (h : s.pool = s'.pool) : isStalled g s = isStalled g s' := by
+  rw [isStalled_eq, isStalled_eq, h]
+
+theorem releaseAndSubmit_launched (s : State) :
+    (releaseAndSubmit s).launched =
+      s.launched ++ (s.pool.filter (·.queued)).map fun x => (x.pt, x.name, x.submitNum + 1) := by
+  unfold releaseAndSubmit
+  simp only
+  split
+  · rename_i h
+    simp only [List.isEmpty_iff] at h
+    rw [h]; simp
+  · have key : ∀ (l : List Proxy) (st : State),
+        (l.foldl (fun (st : State) x =>
+          let y := x.reset (queued := some false)
+          let y := { (y.reset (status := some .preparing)) with submitNum := x.submitNum + 1 }
+          { (st.put y) with launched := st.launched ++ [(x.pt, x.name, x.submitNum + 1)] }) st).launched =
+        st.launched ++ l.map fun x => (x.pt, x.name, x.submitNum + 1) := by
+      intro l; induction l with
+      | nil => intro st; simp
+      | cons a l ih =>
+        intro st
+        simp only [List.foldl_cons, List.map_cons]
+        rw [ih]
+        simp [State.put]
+    exact key _ _
+
+theorem releaseAndSubmit_frame (s : State) :
+    (releaseAndSubmit s).stop = s.stop ∧ (releaseAndSubmit s).stalled = s.stalled := by
+  unfold releaseAndSubmit
+  simp only
+  split
+  · exact ⟨rfl, rfl⟩
+  · have key : ∀ (l : List Proxy) (st : State),
+        (l.foldl (fun (st : State) x =>
+          let y := x.reset (queued := some false)
+          let y := { (y.reset (status := some .preparing)) with submitNum := x.submitNum + 1 }
+          { (st.put y) with launched := st.launched ++ [(x.pt, x.name, x.submitNum + 1)] }) st).stop = st.stop ∧
+        (l.foldl (fun (st : State) x =>
+          let y := x.reset (queued := some false)
+          let y := { (y.reset (status := some .preparing)) with submitNum := x.submitNum + 1 }
+          { (st.put y) with launched := st.launched ++ [(x.pt, x.name, x.submitNum + 1)] }) st).stalled = st.stalled := by
+      intro l; induction l with
+      | nil => intro st; exact ⟨rfl, rfl⟩
+      | cons a l ih =>
+        intro st
+        simp only [List.foldl_cons]
+        have := ih ({ (st.put { ((a.reset (queued := some false)).reset (status := some .preparing)) with
+          submitNum := a.submitNum + 1 }) with launched := st.launched ++ [(a.pt, a.name, a.submitNum + 1)] })
+        exact ⟨this.1, this.2⟩
+    exact key _ _
+
+theorem finishLoop_frame (g : Graph) (s : State) :
+    (finishLoop g s).stop = s.stop ∧ (finishLoop g s).launched = s.launched := by
+  by_cases hu : (s.schedUpd || s.pool.any (·.upd)) = true
+  · simp [finishLoop, hu]
+  · simp only [finishLoop, hu, Bool.false_eq_true, if_false, Bool.not_false, if_true]
+    exact checkStalled_stop g _
+
+/-- the stall flag is up after `finishLoop` only if it was up before or the final pool is stalled -/
+theorem finishLoop_stalled (g : Graph) (s : State) (h : (finishLoop g s).stalled = true) :
+    s.stalled = true ∨ isStalled g (finishLoop g s) = true := by
+  by_cases hu : (s.schedUpd || s.pool.any (·.upd)) = true
+  · simp [finishLoop, hu] at h
+  · simp only [finishLoop, hu, Bool.false_eq_true, if_false, Bool.not_false, if_true] at h ⊢
+    rcases checkStalled_stalled g _ h with h1 | h1
+    · exact Or.inl h1
+    · right
+      rw [← h1]
+      apply isStalled_congr
+      exact checkStalled_pool g _
+
+/-- **shutdown**: if a main loop sets the stop flag, the decision was taken in a pool satisfying `ShutdownOK`,
+and that pool is the pool of the resulting state -/
+theorem mainLoop_shutdown (g : Graph) (s : State) (h0 : s.stop = none) (h : (mainLoop g s).stop.isSome = true) :
+    ShutdownOK g (decision g s) ∧ (mainLoop g s).pool = (decision g s).pool ∧ (mainLoop g s).stop = some "AUTOMATIC" := by
+  rw [mainLoop_eq g s h0] at h ⊢
+  split
+  · rename_i ha
+    have := autoShutdown_sound g _ ha
+    exact ⟨this.1, this.2, rfl⟩
+  · exfalso
+    rename_i ha
+    simp only [ha, Bool.false_eq_true, if_false] at h
+    have e1 := (finishLoop_frame g (processQueue g (releaseAndSubmit (sweepQueue (checkAutoShutdown g (decision g s)).1)))).1
+    have e2 := (fr_processQueue g (releaseAndSubmit (sweepQueue (checkAutoShutdown g (decision g s)).1))).1
+    have e3 := (releaseAndSubmit_frame (sweepQueue (checkAutoShutdown g (decision g s)).1)).1
+    have e4 := (fr_sweepQueue (checkAutoShutdown g (decision g s)).1).1
+    have e5 : (checkAutoShutdown g (decision g s)).1.stop = (decision g s).stop := by
+      rw [checkAutoShutdown_eq]
+      split
+      · exact (checkStalled_stop g _).1
+      · split <;> exact (checkStalled_stop g _).1
+    have e6 := (fr_decision g s).1
+    rw [e1, e2, e3, e4, e5, e6, h0] at h
+    simp at h
+
+theorem checkAutoShutdown_stalled (g : Graph) (s : State) (h : (checkAutoShutdown g s).1.stalled = true) :
+    s.stalled = true ∨ isStalled g s = true := by
+  rw [checkAutoShutdown_eq] at h
+  split at h
+  · exact checkStalled_stalled g s h
+  · split at h <;> exact checkStalled_stalled g s h
+
+/-- **stall**: if the stall flag is up after a main loop and was down before, `isStalled` held either at the
+decision point of that loop or in its final state -/
+theorem mainLoop_stalled (g : Graph) (s : State) (h0 : s.stop = none) (hs : s.stalled = false)
+    (h : (mainLoop g s).stalled = true) :
+    isStalled g (decision g s) = true ∨ isStalled g (mainLoop g s) = true := by
+  rw [mainLoop_eq g s h0] at h ⊢
+  have hd : (decision g s).stalled = false := by rw [(fr_decision g s).2.2]; exact hs
+  split
+  · rename_i ha
+    simp only [ha, if_true] at h
+    rcases checkAutoShutdown_stalled g _ h with h1 | h1
+    · rw [hd] at h1; exact absurd h1 (by simp)
+    · exact Or.inl h1
+  · rename_i ha
+    simp only [ha, Bool.false_eq_true, if_false] at h
+    rcases finishLoop_stalled g _ h with h1 | h1
+    · left
+      rw [(fr_processQueue g _).2.2, (releaseAndSubmit_frame _).2, (fr_sweepQueue _).2.2] at h1
+      rcases checkAutoShutdown_stalled g _ h1 with h2 | h2
+      · rw [hd] at h2; exact absurd h2 (by simp)
+      · exact h2
+    · exact Or.inr h1
+
+/-! ### following one proxy through the pool updates (`get?` algebra) -/
+
+theorem find?_map_put (l : List Proxy) (y : Proxy) (p : Int) (n : String) :
+    (l.map fun z => if z.pt == y.pt && z.name == y.name then y else z).find? (fun z => z.pt == p && z.name == n) =
+      if y.pt = p ∧ y.name = n then (l.find? (fun z => z.pt == p && z.name == n)).map (fun _ => y)
+      else l.find? (fun z => z.pt == p && z.name == n) := by
+  induction l with
+  | nil => simp
+  | cons a l ih =>
+    simp only [List.map_cons, List.find?_cons]
+    by_cases hk : y.pt = p ∧ y.name = n
+    · simp only [hk, and_self, if_true] at ih ⊢
+      by_cases ha : (a.pt == p && a.name == n) = true
+      · have ha' : (a.pt == y.pt && a.name == y.name) = true := by rw [hk.1, hk.2]; exact ha
+        simp [ha, ha', hk.1, hk.2]
+      · have ha' : ¬ (a.pt == y.pt && a.name == y.name) = true := by rw [hk.1, hk.2]; exact ha
+        simp only [ha, Bool.false_eq_true, if_false]
+        exact ih
+    · simp only [hk, if_false] at ih ⊢
+      by_cases ha' : (a.pt == y.pt && a.name == y.name) = true
+      · have hne : ¬ (a.pt == p && a.name == n) = true := by
+          intro ha
+          simp only [Bool.and_eq_true, beq_iff_eq] at ha ha'
+          exact hk ⟨ha'.1 ▸ ha.1, ha'.2 ▸ ha.2⟩
+        have hne2 : ¬ (y.pt == p && y.name == n) = true := by
+          intro hy; simp only [Bool.and_eq_true, beq_iff_eq] at hy; exact hk hy
+        simp only [ha', if_true, hne2, hne, Bool.false_eq_true]
+        exact ih
+      · simp only [ha', if_false, Bool.false_eq_true]
+        by_cases ha : (a.pt == p && a.name == n) = true
+        · simp [ha]
+        · simp only [ha, Bool.false_eq_true]; exact ih
+
+theorem get?_put (s : State) (y : Proxy) (p : Int) (n : String) :
+    (s.put y).get? p n = if y.pt = p ∧ y.name = n then (s.get? p n).map (fun _ => y) else s.get? p n := by
+  unfold State.put State.get?
+  exact find?_map_put s.pool y p n
+
+theorem get?_put_same {s : State} {y z : Proxy} {p : Int} {n : String} (h : s.get? p n = some z)
+    (h1 : y.pt = p) (h2 : y.name = n) : (s.put y).get? p n = some y := by
+  rw [get?_put, if_pos ⟨h1, h2⟩, h]; rfl
+
+theorem get?_put_other {s : State} {y : Proxy} {p : Int} {n : String} (h : ¬ (y.pt = p ∧ y.name = n)) :
+    (s.put y).get? p n = s.get? p n := by
+  rw [get?_put, if_neg h]
+
+theorem get?_add {s : State} {y z : Proxy} {p : Int} {n : String} (h : s.get? p n = some z) :
+    (s.add y).get? p n = some z := by
+  unfold State.add
+  split
+  · exact h
+  · unfold State.get? at h ⊢
+    simp only [List.find?_append, h, Option.some_or]
+
+theorem get?_spawnAndAdd {g : Graph} {s : State} {z : Proxy} {p : Int} {n : String} (h : s.get? p n = some z)
+    (m : String) (q : Int) : (spawnAndAdd g s m q).get? p n = some z := by
+  unfold spawnAndAdd
+  split
+  · exact h
+  · split
+    · exact get?_add h
+    · exact h
+
+theorem get?_spawnNextParentless {g : Graph} {s : State} {z : Proxy} {p : Int} {n : String}
+    (h : s.get? p n = some z) (x : Proxy) : (spawnNextParentless g s x).get? p n = some z := by
+  unfold spawnNextParentless
+  split
+  · exact h
+  · split
+    · exact get?_spawnAndAdd h _ _
+    · exact h
+
+/-- generic progress lemma for folds: `K` is kept by every step, `K2` is kept once reached, and a `hit` element reaches it -/
+theorem fold_progress {α σ} (f : σ → α → σ) (K K2 : σ → Prop) (hit : α → Prop)
+    (hK : ∀ st a, K st → K (f st a)) (hK2 : ∀ st a, K st → K2 st → K2 (f st a))
+    (hhit : ∀ st a, K st → hit a → K2 (f st a)) :
+    ∀ (l : List α) (st : σ), K st → (K2 st ∨ ∃ a ∈ l, hit a) → K (l.foldl f st) ∧ K2 (l.foldl f st) := by
+  intro l; induction l with
+  | nil =>
+    intro st hk h
+    rcases h with h | ⟨a, ha, _⟩
+    · exact ⟨hk, h⟩
+    · simp at ha
+  | cons a l ih =>
+    intro st hk h
+    simp only [List.foldl_cons]
+    apply ih _ (hK st a hk)
+    rcases h with h | ⟨b, hb, hhb⟩
+    · exact Or.inl (hK2 st a hk h)
+    · rcases List.mem_cons.mp hb with e | hb'
+      · subst e; exact Or.inl (hhit st b hk hhb)
+      · exact Or.inr ⟨b, hb', hhb⟩
+
+/-! ### bounded response: a ready proxy is released, queued and launched by the same main loop -/
+
+/-- `z` is the proxy `x` as far as readiness and the submit number are concerned -/
+def Core (z x : Proxy) : Prop :=
+  z.pt = x.pt ∧ z.name = x.name ∧ z.status = x.status ∧ z.held = x.held ∧ z.pre = x.pre ∧ z.submitNum = x.submitNum
+
+theorem Core.refl (x : Proxy) : Core x x := ⟨rfl, rfl, rfl, rfl, rfl, rfl⟩
+
+theorem core_reset_flags {z x : Proxy} (h : Core z x) (q r : Option Bool) : Core (z.reset none q r) x :=
+  ⟨by rw [reset_pt]; exact h.1, by rw [reset_name]; exact h.2.1, by rw [reset_status]; exact h.2.2.1,
+   by rw [reset_held]; exact h.2.2.2.1, by rw [reset_pre]; exact h.2.2.2.2.1, by rw [reset_submitNum]; exact h.2.2.2.2.2⟩
+
+theorem release_step {g : Graph} {x : Proxy} {p : Int} {n : String} (hxp : x.pt = p) (hxn : x.name = n)
+    (st : State) (r z : Proxy) (hz : st.get? p n = some z) (hc : Core z x) :
+    ∃ z', (spawnNextParentless g (match st.get? r.pt r.name with
+        | some y => st.put (y.reset (runahead := some false))
+        | none => st) r).get? p n = some z' ∧ Core z' x ∧
+      ((z.runahead = false ∨ (r.pt = p ∧ r.name = n)) → z'.runahead = false) := by
+  by_cases hk : r.pt = p ∧ r.name = n
+  · rw [hk.1, hk.2, hz]
+    simp only
+    have hzk : z.pt = p ∧ z.name = n := by rw [hc.1, hc.2.1]; exact ⟨hxp, hxn⟩
+    refine ⟨z.reset (runahead := some false), ?_, core_reset_flags hc _ _, ?_⟩
+    · apply get?_spawnNextParentless
+      exact get?_put_same hz (by rw [reset_pt]; exact hzk.1) (by rw [reset_name]; exact hzk.2)
+    · intro _; rw [reset_runahead]; rfl
+  · refine ⟨z, ?_, hc, ?_⟩
+    · apply get?_spawnNextParentless
+      split
+      · rename_i y hy
+        rw [get?_put_other]
+        · exact hz
+        · have := (get?_mem hy).2
+          rw [reset_pt, reset_name, this.1, this.2]; exact hk
+      · exact hz
+    · intro h; exact h.resolve_right hk
+
+theorem release_tracks (g : Graph) (s : State) (p : Int) (n : String) (x : Proxy) (hx : s.get? p n = some x)
+    (hr : x.runahead = false ∨ ∃ lim, s.rhLimit = some lim ∧ x.pt ≤ lim) :
+    ∃ z, (releaseRunahead g s).1.get? p n = some z ∧ Core z x ∧ z.runahead = false := by
+  have hxm := get?_mem hx
+  unfold releaseRunahead
+  split
+  · rename_i hnone
+    rcases hr with h | ⟨lim, hl, _⟩
+    · exact ⟨x, hx, Core.refl x, h⟩
+    · rw [hnone] at hl; exact absurd hl (by simp)
+  · rename_i lim hlim
+    split
+    · rename_i he
+      simp only [List.isEmpty_iff] at he
+      rw [he] at hxm; exact absurd hxm.1 (by simp)
+    · simp only
+      have := fold_progress
+        (fun (st : State) (r : Proxy) => spawnNextParentless g (match st.get? r.pt r.name with
+          | some y => st.put (y.reset (runahead := some false))
+          | none => st) r)
+        (fun st => ∃ z, st.get? p n = some z ∧ Core z x)
+        (fun st => ∃ z, st.get? p n = some z ∧ Core z x ∧ z.runahead = false)
+        (fun r => r.pt = p ∧ r.name = n)
+        (by
+          rintro st r ⟨z, hz, hc⟩
+          obtain ⟨z', h1, h2, _⟩ := release_step (g := g) hxm.2.1 hxm.2.2 st r z hz hc
+          exact ⟨z', h1, h2⟩)
+        (by
+          rintro st r _ ⟨z, hz, hc, hrz⟩
+          obtain ⟨z', h1, h2, h3⟩ := release_step (g := g) hxm.2.1 hxm.2.2 st r z hz hc
+          exact ⟨z', h1, h2, h3 (Or.inl hrz)⟩)
+        (by
+          rintro st r ⟨z, hz, hc⟩ hit
+          obtain ⟨z', h1, h2, h3⟩ := release_step (g := g) hxm.2.1 hxm.2.2 st r z hz hc
+          exact ⟨z', h1, h2, h3 (Or.inr hit)⟩)
+        (s.pool.filter fun y => y.pt ≤ lim && y.runahead) s ⟨x, hx, Core.refl x⟩
+        (by
+          rcases hr with h | ⟨lim', hl, hle⟩
+          · exact Or.inl ⟨x, hx, Core.refl x, h⟩
+          · by_cases hxr : x.runahead = false
+            · exact Or.inl ⟨x, hx, Core.refl x, hxr⟩
+            · right
+              refine ⟨x, ?_, hxm.2⟩
+              rw [hlim] at hl
+              simp only [Option.some.injEq] at hl
+              subst hl
+              apply List.mem_filter.mpr
+              refine ⟨hxm.1, ?_⟩
+              simp only [Bool.and_eq_true, decide_eq_true_eq]
+              exact ⟨hle, by simpa using hxr⟩)
+      exact this.2
+
+/-- readiness as `queue_if_ready` sees it (retry timers apart) -/
+def Ready (w : Proxy) : Prop :=
+  w.status = .waiting ∧ w.held = false ∧ w.prereqsSatisfied = true ∧ w.runahead = false
+
+theorem prereqs_reset (w : Proxy) (st : Option Status) (q r : Option Bool) :
+    (w.reset st q r).prereqsSatisfied = w.prereqsSatisfied := by
+  unfold Proxy.prereqsSatisfied; rw [reset_pre]
+
+theorem sweep_step {p : Int} {n : String} (sn : Nat) (st : State) (e w : Proxy) (hw : st.get? p n = some w)
+    (hwk : w.pt = p ∧ w.name = n) (hr : Ready w) (hsn : w.submitNum = sn) :
+    ∃ w', (match st.get? e.pt e.name with
+        | some y =>
+          if y.status == Status.waiting && !y.queued && !y.runahead then
+            let y := { y with retryWait := false }
+            queueIfReady (st.put y) y
+          else st
+        | none => st).get? p n = some w' ∧ (w'.pt = p ∧ w'.name = n) ∧ Ready w' ∧ w'.submitNum = sn ∧
+      ((w.queued = true ∨ (e.pt = p ∧ e.name = n)) → w'.queued = true) := by
+  by_cases hk : e.pt = p ∧ e.name = n
+  · rw [hk.1, hk.2, hw]
+    simp only
+    by_cases hq : w.queued = true
+    · have : (w.status == Status.waiting && !w.queued && !w.runahead) = false := by simp [hq]
+      rw [this]
+      exact ⟨w, hw, hwk, hr, hsn, fun _ => hq⟩
+    · have hq' : w.queued = false := by simpa using hq
+      have : (w.status == Status.waiting && !w.queued && !w.runahead) = true := by
+        simp [hr.1, hq', hr.2.2.2]
+      rw [this]
+      simp only [if_true]
+      have h1 : (st.put { w with retryWait := false }).get? p n = some { w with retryWait := false } :=
+        get?_put_same hw hwk.1 hwk.2
+      unfold queueIfReady
+      have hc : (!({ w with retryWait := false } : Proxy).queued && !({ w with retryWait := false } : Proxy).runahead &&
+          ({ w with retryWait := false } : Proxy).isReadyToRun) = true := by
+        show (!w.queued && !w.runahead &&
+          (!w.held && (w.status == Status.waiting) && w.prereqsSatisfied && !false)) = true
+        rw [hq', hr.2.2.2, hr.2.1, hr.1, hr.2.2.1]; rfl
+      rw [if_pos hc]
+      refine ⟨({ w with retryWait := false } : Proxy).reset (queued := some true), ?_, ?_, ?_, ?_, ?_⟩
+      · exact get?_put_same h1 (by rw [reset_pt]; exact hwk.1) (by rw [reset_name]; exact hwk.2)
+      · exact ⟨by rw [reset_pt]; exact hwk.1, by rw [reset_name]; exact hwk.2⟩
+      · refine ⟨by rw [reset_status]; exact hr.1, by rw [reset_held]; exact hr.2.1, ?_, by rw [reset_runahead]; exact hr.2.2.2⟩
+        rw [prereqs_reset]; exact hr.2.2.1
+      · rw [reset_submitNum]; exact hsn
+      · intro _; rw [reset_queued]; rfl
+  · refine ⟨w, ?_, hwk, hr, hsn, fun h => h.resolve_right hk⟩
+    split
+    · rename_i y hy
+      have hyk := (get?_mem hy).2
+      split
+      · unfold queueIfReady
+        have hne : ¬ (({ y with retryWait := false } : Proxy).pt = p ∧ ({ y with retryWait := false } : Proxy).name = n) := by
+          show ¬ (y.pt = p ∧ y.name = n)
+          rw [hyk.1, hyk.2]; exact hk
+        dsimp only
+        split
+        · rw [get?_put_other, get?_put_other hne]
+          · exact hw
+          · rw [reset_pt, reset_name]; exact hne
+        · rw [get?_put_other hne]; exact hw
+      · exact hw
+    · exact hw
+
+theorem sweep_tracks (s : State) (p : Int) (n : String) (z : Proxy) (hz : s.get? p n = some z) (hr : Ready z) :
+    ∃ w, (sweepQueue s).get? p n = some w ∧ w.queued = true ∧ w.submitNum = z.submitNum := by
+  have hzm := get?_mem hz
+  unfold sweepQueue
+  have := fold_progress
+    (fun (st : State) (e : Proxy) => match st.get? e.pt e.name with
+      | some y =>
+        if y.status == Status.waiting && !y.queued && !y.runahead then
+          let y := { y with retryWait := false }
+          queueIfReady (st.put y) y
+        else st
+      | none => st)
+    (fun st => ∃ w, st.get? p n = some w ∧ (w.pt = p ∧ w.name = n) ∧ Ready w ∧ w.submitNum = z.submitNum)
+    (fun st => ∃ w, st.get? p n = some w ∧ (w.pt = p ∧ w.name = n) ∧ Ready w ∧ w.submitNum = z.submitNum ∧ w.queued = true)
+    (fun e => e.pt = p ∧ e.name = n)
+    (by
+      rintro st e ⟨w, hw, hwk, hrw, hsn⟩
+      obtain ⟨w', h1, h2, h3, h4, _⟩ := sweep_step z.submitNum st e w hw hwk hrw hsn
+      exact ⟨w', h1, h2, h3, h4⟩)
+    (by
+      rintro st e _ ⟨w, hw, hwk, hrw, hsn, hq⟩
+      obtain ⟨w', h1, h2, h3, h4, h5⟩ := sweep_step z.submitNum st e w hw hwk hrw hsn
+      exact ⟨w', h1, h2, h3, h4, h5 (Or.inl hq)⟩)
+    (by
+      rintro st e ⟨w, hw, hwk, hrw, hsn⟩ hit
+      obtain ⟨w', h1, h2, h3, h4, h5⟩ := sweep_step z.submitNum st e w hw hwk hrw hsn
+      exact ⟨w', h1, h2, h3, h4, h5 (Or.inr hit)⟩)
+    s.pool s ⟨z, hz, hzm.2, hr, rfl⟩ (Or.inr ⟨z, hzm.1, hzm.2⟩)
+  obtain ⟨w, h1, _, _, h4, h5⟩ := this.2
+  exact ⟨w, h1, h5, h4⟩
+
+theorem checkAutoShutdown_pool (g : Graph) (s : State) : (checkAutoShutdown g s).1.pool = s.pool := by
+  rw [checkAutoShutdown_eq]
+  split
+  · exact checkStalled_pool g s
+  · split <;> exact checkStalled_pool g s
+
+theorem checkAutoShutdown_false_of_waiting (g : Graph) (s : State) (z : Proxy) (hz : z ∈ s.pool)
+    (hw : z.status = .waiting) (hr : z.runahead = false) : (checkAutoShutdown g s).2 = false := by
+  rw [checkAutoShutdown_eq]
+  split
+  · rfl
+  · have : (checkStalled g s).pool.any shutB = true := by
+      rw [checkStalled_pool]
+      apply List.any_eq_true.mpr
+      refine ⟨z, hz, ?_⟩
+      unfold shutB; simp [hw, hr]
+    rw [if_pos this]
+
+/-- **bounded response** -/
+theorem mainLoop_bounded_response (g : Graph) (s : State) (h0 : s.stop = none) (p : Int) (n : String) (x : Proxy)
+    (hx : s.get? p n = some x) (hw : x.status = .waiting) (hh : x.held = false) (hp : x.prereqsSatisfied = true)
+    (hr : x.runahead = false ∨ ∃ lim, (computeRunahead g s).rhLimit = some lim ∧ x.pt ≤ lim) :
+    (p, n, x.submitNum + 1) ∈ (mainLoop g s).launched := by
+  have hx0 : (computeRunahead g s).get? p n = some x := by
+    unfold State.get? at hx ⊢; rw [pool_computeRunahead]; exact hx
+  obtain ⟨z, hz, hc, hzr⟩ := release_tracks g (computeRunahead g s) p n x hx0 hr
+  have hzd : (decision g s).get? p n = some z := hz
+  have hzm := get?_mem hzd
+  have hready : Ready z := by
+    refine ⟨by rw [hc.2.2.1]; exact hw, by rw [hc.2.2.2.1]; exact hh, ?_, hzr⟩
+    unfold Proxy.prereqsSatisfied at hp ⊢; rw [hc.2.2.2.2.1]; exact hp
+  have hauto := checkAutoShutdown_false_of_waiting g (decision g s) z hzm.1 hready.1 hzr
+  rw [mainLoop_eq g s h0, hauto]
+  simp only [Bool.false_eq_true, if_false]
+  have hz1 : (checkAutoShutdown g (decision g s)).1.get? p n = some z := by
+    unfold State.get? at hzd ⊢; rw [checkAutoShutdown_pool]; exact hzd
+  obtain ⟨w, hw1, hwq, hwsn⟩ := sweep_tracks _ p n z hz1 hready
+  have hwm := get?_mem hw1
+  rw [(finishLoop_frame g _).2, (fr_processQueue g _).2.1, releaseAndSubmit_launched]
+  apply List.mem_append_right
+  apply List.mem_map.mpr
+  refine ⟨w, List.mem_filter.mpr ⟨hwm.1, hwq⟩, ?_⟩
+  rw [hwm.2.1, hwm.2.2, hwsn, hc.2.2.2.2.2]
 
 end CylcModel.Sched
